@@ -58,6 +58,9 @@ pub enum Body {
     Comm(crate::fam_comm::CommPlan),
     Status(crate::fam_status::StatusPlan),
     Spawn(crate::fam_spawn::SpawnPlan),
+    Drop(crate::fam_drop::DropPlan),
+    Pipe(crate::fam_pipe::PipePlan),
+    Builder(crate::fam_builder::BuilderPlan),
 }
 
 pub const CAPS: [usize; 4] = [4096, 8192, 65536, 1 << 20];
@@ -131,6 +134,9 @@ pub fn gen_plan(prop: &str, base_seed: u64, index: u64) -> Plan {
         "C01" | "C02" | "C03" | "C04" => crate::fam_comm::generate(prop, &mut rng, &mut plan, index),
         "C09" | "C10" | "C11" => crate::fam_status::generate(prop, &mut rng, &mut plan, index),
         "C05" | "C06" | "C07" | "C08" | "C15" | "C17" | "C18" => crate::fam_spawn::generate(prop, &mut rng, &mut plan, index),
+        "C12" => crate::fam_drop::generate(&mut rng, &mut plan, index),
+        "C16" => crate::fam_builder::generate(&mut rng, &mut plan, index),
+        "C13" | "C14" => crate::fam_pipe::generate(prop, &mut rng, &mut plan, index),
         _ => panic!("no generator for property {}", prop),
     }
     plan
